@@ -53,6 +53,8 @@ FLOAT_BIN_EPS = 1e-12  # absolute part of the bin-coordinate ambiguity band (see
 # ------------------------------------------------------------------------------------------------
 # oracle
 # ------------------------------------------------------------------------------------------------
+TIE_SCALE = 4   # once the tie is broken the failing-input search runs at this multiple of the budget (default 10; this check is slow)
+
 def fr(x):
     return x if isinstance(x, F) else F(x)
 
